@@ -635,6 +635,7 @@ func rulesC18(c *Ctx) {
 	R.Rule("R4", "every keyset entry the wallet keeps in memory carries that keyset's fee (from the mint's answer, from storage or from the entry it replaces)", 4)
 	c.c18KeysetEntriesCarryFee()
 	c.c18SendSplit()
+	R.Rule("R9", "Send selects and removes its proofs in one critical section: the call that selects the proofs and deletes them from the spendable bucket runs with the wallet mutex held (taken before, released only by the deferred unlock)", 1)
 	R.Rule("R8", "the keyset listing the wallet synchronises with is not served from the mint's response cache (shared with C20.R4: only swap and mint are cached; a cached listing keeps naming a rotated-out keyset as active and the swap behind a send is refused)", 10)
 	R.Rule("R6", "the mint's fee operation is the formula the wallet mirrors: ceil(sum of the inputs' keyset ppk / 1000), one rounding per transaction (shared with C02.R4)", 1)
 	R.Rule("R5", "a swap that the mint accepted removes its inputs from the spendable bucket before anything can fail (a later exact selection must not hand out spent proofs; shared with C17.R2)", 1)
@@ -846,6 +847,7 @@ func rulesC18(c *Ctx) {
 
 	c.ruleWalletFeeFormula("R3")
 	c.runAs("R4", "R8", func(cc *Ctx) { cc.c20Cache() })
+	c.c18SendCriticalSection()
 	// the mint's side of the same formula (shared with C02.R4): the wallet's estimate is exact only if the mint
 	// charges one ceil over the summed ppk of all inputs
 	if ks := c.keysetsMapField("R6"); ks != "" {
@@ -915,6 +917,7 @@ func (c *Ctx) ruleWalletFeeFormula(rule string) {
 // pending bucket"; they rest on the storage handing out every stored entry and storing every element.
 func (c *Ctx) c17StorageTotal() {
 	R := c.R
+	c.c17BucketKeysAgree()
 	var impls []types.Type
 	if nt := c.P.NamedType("wallet/storage", "WalletDB"); nt != nil {
 		if it, ok := nt.Underlying().(*types.Interface); ok {
@@ -1344,4 +1347,113 @@ func (c *Ctx) ruleSwapInputsRemovedFirst(rule string) {
 	walk(g, from, 0)
 	R.Check(rule, fk, "swap accepted => inputs removed before anything can fail", c.P.InstrPos(post), okD,
 		"after the mint accepted the swap the inputs leave the spendable bucket before any fallible step", whyD)
+}
+
+// c17BucketKeysAgree: R6. Every way an entry enters or leaves the spendable and the pending bucket names it by the
+// same key: the proof's secret (spendable) / the raw bytes of its Y (pending). A writer that prefixes or re-encodes the
+// key makes the entries invisible to the deleters that still use the plain key (reclaim, remove-spent): value that is
+// counted twice or never reconciled.
+func (c *Ctx) c17BucketKeysAgree() {
+	R := c.R
+	n := 0
+	for _, f := range c.P.Funcs {
+		top := EnclosingTop(f)
+		if top.Pkg == nil || c.P.Rel(top.Pkg.Pkg.Path()) != "wallet/storage" {
+			continue
+		}
+		o := c.P.OriginsOf(f)
+		for _, ci := range Calls(f) {
+			d := c.P.Describe(ci)
+			if !(d.Name == "bbolt.(*Bucket).Put" || d.Name == "bbolt.(*Bucket).Delete" || d.Name == "bbolt.(*Bucket).Get") || d.Recv == nil || len(d.Args) == 0 {
+				continue
+			}
+			bucket := o.Of(d.Recv).String()
+			key := o.Of(d.Args[0])
+			ks := key.String()
+			var ok bool
+			var class string
+			switch {
+			case strings.Contains(bucket, `#"pending_proofs"`):
+				class = "raw Y bytes"
+				ok = (isCallSuffix(key, ".SerializeCompressed") && strings.Contains(ks, "crypto.HashToCurve#0(") && strings.Contains(ks, ".Secret")) ||
+					(isCall(key, "encoding/hex.DecodeString") && key.Idx == 0 && (strings.HasPrefix(arg(key, 0).String(), "elem(") || strings.HasSuffix(arg(key, 0).String(), ".Y") || strings.Contains(arg(key, 0).String(), ".Y")))
+			case strings.Contains(bucket, `#"proofs"`):
+				class = "the proof's secret"
+				ok = strings.HasSuffix(ks, ".Secret") || strings.HasSuffix(ks, ".Secret)") || (key.K == "param") || strings.HasPrefix(ks, "anyof:(P:")
+			default:
+				continue
+			}
+			n++
+			R.Check("R6", c.P.FuncKey(top), strings.TrimPrefix(d.Name, "bbolt.(*Bucket).")+" key of the bucket is "+class, c.P.InstrPos(ci), ok,
+				"every writer, reader and deleter of the bucket names an entry by the same key ("+class+", nothing prefixed or re-encoded)", "key is "+short(ks, 140))
+		}
+	}
+	if n == 0 {
+		R.Unresolved("R6", "Put / Delete / Get on the proof buckets", "none found")
+	}
+}
+
+// c18SendCriticalSection: R9.
+func (c *Ctx) c18SendCriticalSection() {
+	R := c.R
+	f := c.fn("R9", "wallet.(*Wallet).Send")
+	if f == nil {
+		return
+	}
+	fk := c.P.FuncKey(f)
+	var sel ssa.Instruction
+	locks := NewCut()
+	var unlocks []ssa.Instruction
+	for _, g := range c.OpFuncs(f) {
+		for _, ci := range Calls(g) {
+			d := c.P.Describe(ci)
+			site := c.siteIn(f, ci)
+			if site == nil {
+				continue
+			}
+			switch {
+			case d.Name == "wallet.(*Wallet).getProofsForAmount":
+				sel = site
+			case d.Name == "sync.(*RWMutex).Lock" || d.Name == "sync.(*Mutex).Lock":
+				if _, isCall := ci.(*ssa.Call); isCall && g == f {
+					locks.Barriers[ci] = true
+				}
+			case d.Name == "sync.(*RWMutex).Unlock" || d.Name == "sync.(*Mutex).Unlock":
+				if _, isCall := ci.(*ssa.Call); isCall {
+					unlocks = append(unlocks, site)
+				}
+			}
+		}
+	}
+	if sel == nil {
+		R.Unresolved("R9", "proof selection in "+fk, "no call of getProofsForAmount")
+		return
+	}
+	ok, why := true, ""
+	if len(locks.Barriers) == 0 {
+		ok, why = false, "Send does not take the wallet mutex itself"
+	} else if reach, path := ReachFromEntry(f, sel, locks); reach {
+		ok, why = false, "the selection is reachable without the mutex held: "+c.P.PathString(path)
+	}
+	o := c.P.OriginsOf(f)
+	for _, u := range unlocks {
+		for l := range locks.Barriers {
+			if r1, _ := o.ReachAvoiding(l, u, NewCut()); r1 {
+				if r2, _ := o.ReachAvoiding(u, sel, NewCut()); r2 {
+					ok, why = false, "the mutex is released at "+c.P.InstrPos(u)+" before the selection"
+				}
+			}
+		}
+	}
+	// the callee does not drop / retake the lock around its own selection
+	if gp := c.P.Func("wallet.(*Wallet).getProofsForAmount"); gp != nil {
+		for _, g := range c.OpFuncs(gp) {
+			for _, ci := range Calls(g) {
+				if n := c.P.Describe(ci).Name; strings.HasPrefix(n, "sync.(*RWMutex).") || strings.HasPrefix(n, "sync.(*Mutex).") {
+					ok, why = false, "getProofsForAmount manipulates the mutex itself ("+n+" at "+c.P.InstrPos(ci)+"): selection and removal are not covered by the caller's critical section"
+				}
+			}
+		}
+	}
+	R.Check("R9", fk, "selection and removal under the wallet mutex", c.P.InstrPos(sel), ok, "two overlapping sends cannot select the same proofs: the mutex is held from before the selection until the function returns", why)
 }
